@@ -311,6 +311,18 @@ def ev_delete_branch(w, name):
                                branch=name))
 
 
+def ev_mkbranch(w, name, author=AUTHOR):
+    """Create branch `name` (one commit on top of the first development
+    branch) unless it exists."""
+    refs = w.heads()
+    if name in refs:
+        return
+    base = refs[sorted(b for b in refs if b.startswith('development/'))[0]]
+    sha = w.commit_file(base, 'f_' + sanitize(name), name + '\n',
+                        'work on %s' % name, author)
+    w.set_ref(name, sha)
+
+
 def ev_seq(w, *evs):
     """Several events applied as one (macro event); the observation is the
     last one's."""
@@ -321,7 +333,7 @@ def ev_seq(w, *evs):
 
 
 TABLE = {
-    'seq': ev_seq,
+    'seq': ev_seq, 'mkbranch': ev_mkbranch,
     'open': ev_open, 'open_raw': ev_open_raw, 'push': ev_push,
     'amend': ev_amend, 'rebase': ev_rebase, 'reset_src': ev_reset_src,
     'manual': ev_manual, 'approve': ev_approve, 'unapprove': ev_unapprove,
